@@ -179,8 +179,17 @@ func main() {
 	tier := flag.String("tier", "quick", "quick|thorough")
 	out := flag.String("out", "", "output directory")
 	replay := flag.String("replay", "", "replay a single case line (TAB separated) and print observations")
+	trace := flag.String("trace", "", "write every case to this file before executing it (to find the input of a fatal crash)")
 	flag.Parse()
 
+	if *trace != "" {
+		tf, err := os.Create(*trace)
+		if err != nil {
+			fmt.Fprintln(os.Stderr, err)
+			os.Exit(2)
+		}
+		traceFile = tf
+	}
 	if *replay != "" {
 		doReplay(*replay)
 		return
